@@ -92,8 +92,11 @@ class SimZk:
         self.order_seed = None
         self._order_keys = {}
 
-    def child_order(self, path, names):
-        """The order in which get_children returns `names` of `path`."""
+    def child_order(self, path, names, sid=0):
+        """The order in which get_children returns `names` of `path` to
+        session `sid`.  ZooKeeper promises none: with an order seed every
+        session sees its own arbitrary (but stable) order, so a restarted
+        process may be shown the same children in another order."""
         names = sorted(names)
         if self.order_seed is None:
             return names
@@ -101,9 +104,10 @@ class SimZk:
         seed = self.order_seed
 
         def key(name):
-            k = keys.get((path, name))
+            k = keys.get((sid, path, name))
             if k is None:
-                k = keys[(path, name)] = rngmod.mix(seed, path, name)
+                k = keys[(sid, path, name)] = rngmod.mix(seed, sid, path,
+                                                         name)
             return k
         names.sort(key=key)
         return names
@@ -463,7 +467,8 @@ class SimZkClient:
         if watch is not None:
             self._server.child_watches.setdefault(path, []).append(
                 (self._session.sid, watch))
-        children = self._server.child_order(path, node.children)
+        children = self._server.child_order(path, node.children,
+                                            self._session.sid)
         if include_data:
             return children, node.stat()
         return children
